@@ -955,6 +955,17 @@ func (c *EvalCtx) call(x *Expr) (*Val, error) {
 			}
 		}
 		return nil, fmt.Errorf("addr: no such local in memory")
+	case "cat2":
+		// raw binary concatenation term (no flattening): used to state associativity instances
+		a, err := c.evalAs(x.Args[0], sStr)
+		if err != nil {
+			return nil, err
+		}
+		b, err := c.evalAs(x.Args[1], sStr)
+		if err != nil {
+			return nil, err
+		}
+		return &Val{T: "(scat " + a.T + " " + b.T + ")", S: sStr}, nil
 	case "refOf":
 		a, err := argv(0)
 		if err != nil {
